@@ -7,6 +7,9 @@ pub mod semantic;
 
 pub(crate) mod util;
 
+#[cfg(feature = "verif")]
+pub mod verif;
+
 pub fn build(in_dir: &Path, out_dir: &Path, pointer_size: usize) -> anyhow::Result<()> {
     let mut semantic_state = semantic::SemanticState::new(pointer_size);
 
